@@ -24,9 +24,17 @@ fn suite_board(cx: &mut Ctx, tier: &str, shard: usize, nshards: usize, variant: 
     if variant == "universe" {
         // C03: complete move universe on a small number of positions
         cx.uni_every = 1;
-        let n = tier_n(tier, 40, 3000) / nshards + 1;
+        let n = tier_n(tier, 96, 3000) / nshards + 1;
+        let mut fam: Vec<Desc> = vec![];
+        let mut frng = Rng::new(4242 + shard as u64);
+        family_castling(&mut fam);
+        let l = fam.len(); family_en_passant(&mut frng, l + 400, &mut fam);
+        let l = fam.len(); family_promotion(&mut frng, l + 300, &mut fam);
+        family_boxed(&mut frng, 200, &mut fam);
+        family_ep_boxed(&mut frng, 100, &mut fam);
         for i in 0..n {
-            let d = if i < seeds.len() && (i % nshards == shard) { seeds[i].clone() } else { synthetic(&mut cx.rng) };
+            let d = if i < seeds.len() && (i % nshards == shard) { seeds[i].clone() }
+                    else if i % 3 != 0 { fam[cx.rng.below(fam.len())].clone() } else { synthetic(&mut cx.rng) };
             let id = cx.case_id();
             if let Some(b) = cx.start(&id, &d, false) {
                 // and one random successor
@@ -69,11 +77,14 @@ fn suite_board(cx: &mut Ctx, tier: &str, shard: usize, nshards: usize, variant: 
     family_boxed(&mut frng, tier_n(tier, 6000, 60000), &mut fam);
     let _ = base3;
     family_ep_boxed(&mut frng, tier_n(tier, 1200, 12000), &mut fam);
+    let before_defects = fam.len();
+    family_rights_defects(&mut fam);
+    let n_defects = fam.len() - before_defects;
     let stride = tier_n(tier, 6, 1);
     let off = cx.rng.below(stride);
     for (i, d) in fam.iter().enumerate() {
         if i % nshards != shard { continue }
-        if (i / nshards) % stride != off { continue }
+        if (i / nshards) % stride != off && !(i >= before_defects && i < before_defects + n_defects) { continue }
         let id = cx.case_id();
         // positions with an en-passant square are, half of the time, reached by playing the double push
         if d.ep.is_some() && cx.rng.chance(1, 2) {
@@ -298,6 +309,46 @@ fn random_game(cx: &mut GameCx, d: &Desc, len: usize, p_proto: u64) {
     }
 }
 
+/// both sides shuffle one piece back and forth so that positions recur (with whatever rights/ep state the shuffle
+/// leaves), draw offers and declines interleaved
+fn dance_game(cx: &mut GameCx, d: &Desc, cycles: usize, p_proto: u64) {
+    let (mut id, mut g, std_start) = match cx.root(d) { Some(x) => x, None => return };
+    // a short random prelude
+    for _ in 0..cx.rng.below(6) {
+        let ms = sorted_moves(&g.get_position());
+        if ms.is_empty() || !matches!(g.get_game_status(), GameStatus::Ongoing) { break }
+        let m = ms[cx.rng.below(ms.len())].1;
+        let (nid, g2, _) = cx.apply(&id, &g, &Action::MakeMove(m), false, std_start);
+        id = nid; g = g2;
+    }
+    let rev = |b: &ChessBoard, rng: &mut Rng| -> Option<BoardMove> {
+        let ms: Vec<BoardMove> = b.get_legal_moves().into_iter().filter(|m| matches!(m, BoardMove::MovePiece(pm) if pm.get_piece_type() != PieceType::Pawn && !pm.is_capture_on_board(b))).collect();
+        // half of the time prefer a rook or king move while that side still holds a castling right (the shuffle then
+        // revisits the placement with fewer rights, which must not count as a repetition)
+        let heavy: Vec<BoardMove> = ms.iter().copied().filter(|m| matches!(m, BoardMove::MovePiece(pm) if pm.get_piece_type() == PieceType::Rook || pm.get_piece_type() == PieceType::King)).collect();
+        if b.get_castle_rights(b.get_side_to_move()).has_any() && !heavy.is_empty() && rng.chance(1, 2) { return Some(heavy[rng.below(heavy.len())]) }
+        if ms.is_empty() { None } else { Some(ms[rng.below(ms.len())]) }
+    };
+    let back = |m: &BoardMove| match m { BoardMove::MovePiece(pm) => BoardMove::MovePiece(PieceMove::new(pm.get_piece_type(), pm.get_destination_square(), pm.get_source_square(), None).unwrap()), x => *x };
+    let a = match rev(&g.get_position(), &mut cx.rng) { Some(m) => m, None => return };
+    let p1 = match quiet(|| g.get_position().make_move(&a)) { Ok(Ok(p)) => p, _ => return };
+    let b = match rev(&p1, &mut cx.rng) { Some(m) => m, None => return };
+    let cycle = [a, b, back(&a), back(&b)];
+    let total = cycles * 4;
+    for i in 0..total {
+        if cx.rng.chance(p_proto, 100) && matches!(g.get_game_status(), GameStatus::Ongoing) {
+            let c = if cx.rng.chance(1, 2) { Color::White } else { Color::Black };
+            let (nid, g2, _) = cx.apply(&id, &g, &Action::OfferDraw(c), false, std_start); id = nid; g = g2;
+            let (nid, g2, _) = cx.apply(&id, &g, &Action::DeclineDraw, false, std_start); id = nid; g = g2;
+        }
+        let fin = i + 1 == total || i % 8 == 7;
+        let (nid, g2, _) = cx.apply(&id, &g, &Action::MakeMove(cycle[i % 4]), fin, std_start);
+        id = nid; g = g2;
+    }
+    // one more action after the end
+    let (_, _, _) = cx.apply(&id, &g, &Action::Resign(Color::White), true, std_start);
+}
+
 fn suite_game(w: &mut dyn Write, tier: &str, seed: u64, shard: usize, nshards: usize, variant: &str) {
     let mut cx = GameCx { w, rng: Rng::new(seed * 1000 + shard as u64), prefix: format!("g{}_", shard), n: 0 };
     let roots: Vec<Desc> = GAME_ROOTS.iter().map(|f| Desc::from_fen(f)).collect();
@@ -319,12 +370,19 @@ fn suite_game(w: &mut dyn Write, tier: &str, seed: u64, shard: usize, nshards: u
             let len = 5 + cx.rng.below(60);
             random_game(&mut cx, &d, len, 10);
         }
+        let n3 = tier_n(tier, 160, 4000) / nshards + 1;
+        for i in 0..n3 {
+            let d = if i % 2 == 0 { roots[cx.rng.below(roots.len())].clone() } else { Desc::from_fen(SEED_FENS[cx.rng.below(8)]) };
+            let cycles = 2 + cx.rng.below(3);
+            dance_game(&mut cx, &d, cycles, if i % 3 == 0 { 15 } else { 0 });
+        }
     } else {
         // C15: games from the standard start in every ending mode
         let n = tier_n(tier, 300, 12000) / nshards + 1;
         let start = roots[0].clone();
         for i in 0..n {
             let len = if i % 10 == 0 { cx.rng.below(4) } else { 2 + cx.rng.below(160) };
+            if i % 8 == 3 { let cycles = 2 + cx.rng.below(2); dance_game(&mut cx, &start, cycles, 0); continue }
             random_game(&mut cx, &start, len, if i % 3 == 0 { 0 } else { 4 });
         }
     }
@@ -433,6 +491,22 @@ fn suite_str(w: &mut dyn Write, tier: &str, seed: u64, shard: usize, nshards: us
             if ms.is_empty() || !matches!(g.get_game_status(), GameStatus::Ongoing) { break }
             let m = ms[rng.below(ms.len())].1;
             let _ = g.make_move(&Action::MakeMove(m));
+        }
+        if rng.chance(1, 4) && matches!(g.get_game_status(), GameStatus::Ongoing) {
+            // shuffle two pieces back and forth until the game is drawn by repetition
+            let pick = |b: &ChessBoard, rng: &mut Rng| -> Option<BoardMove> {
+                let ms: Vec<BoardMove> = b.get_legal_moves().into_iter().filter(|m| matches!(m, BoardMove::MovePiece(pm) if pm.get_piece_type() != PieceType::Pawn && !pm.is_capture_on_board(b))).collect();
+                if ms.is_empty() { None } else { Some(ms[rng.below(ms.len())]) }
+            };
+            let back = |m: &BoardMove| match m { BoardMove::MovePiece(pm) => BoardMove::MovePiece(PieceMove::new(pm.get_piece_type(), pm.get_destination_square(), pm.get_source_square(), None).unwrap()), x => *x };
+            if let Some(a) = pick(&g.get_position(), &mut rng) {
+                if let Ok(Ok(p1)) = quiet(|| g.get_position().make_move(&a)) {
+                    if let Some(b) = pick(&p1, &mut rng) {
+                        let cyc = [a, b, back(&a), back(&b)];
+                        for i in 0..16 { if g.make_move(&Action::MakeMove(cyc[i % 4])).is_err() { break } }
+                    }
+                }
+            }
         }
         if rng.chance(1, 3) { let _ = g.make_move(&Action::Resign(Color::White)); }
         let base = match quiet(|| g.as_pgn()) { Ok(s) => s, Err(_) => "[Event \"?\"]\n\n1.e4 e5 1-0".to_string() };
@@ -683,7 +757,7 @@ fn main() {
             let mut w = BufWriter::new(f);
             match suite.as_str() {
                 "board" => {
-                    let flags = match variant.as_str() { "san" => F_SANS, "render" => F_RENDER, "fen" => F_REFEN, "all" => F_SANS | F_RENDER | F_REFEN, _ => 0 };
+                    let flags = match variant.as_str() { "legal" => F_MINIUNI, "san" => F_SANS, "render" => F_RENDER, "fen" => F_REFEN, "all" => F_SANS | F_RENDER | F_REFEN, _ => 0 };
                     let uni = if variant == "universe" { universe() } else { vec![] };
                     let mut cx = Ctx { w: &mut w, rng: Rng::new(seed * 1000 + shard as u64), flags, uni, uni_every: 0, nrec: 0, prefix: format!("b{}_", shard), ncase: 0 };
                     suite_board(&mut cx, &tier, shard, nshards, &variant);
